@@ -254,14 +254,14 @@ def _shard_entry(a):
 # ----------------------------------------------------------------------
 
 def write_replay(prop_id, sig, plan, detail):
-    d = os.path.join(ROOT, "replays", prop_id, "found")
+    d = os.path.join(os.environ.get("VERIF_FOUND_DIR") or os.path.join(ROOT, "replays"), prop_id, "found")
     os.makedirs(d, exist_ok=True)
     body = {"property": prop_id, "signature": sig, "detail": detail, "plan": plan}
     name = hashlib.sha1(json.dumps(body, sort_keys=True, default=str).encode()).hexdigest()[:16]
     path = os.path.join(d, name + ".json")
     with open(path, "w") as f:
         json.dump(body, f, indent=1, sort_keys=True, default=str)
-    return os.path.relpath(path, ROOT)
+    return os.path.relpath(path, ROOT) if path.startswith(ROOT) else path
 
 
 def replay_tier(mod, ctx):
@@ -317,8 +317,9 @@ def write_evidence(mod, ctx, wall, n_viol):
         pass
     except Exception as e:  # schema violation is a harness error
         raise HarnessError(f"evidence does not validate: {e}")
-    os.makedirs(os.path.join(ROOT, "evidence"), exist_ok=True)
-    with open(os.path.join(ROOT, "evidence", ctx.prop_id + ".json"), "w") as f:
+    evdir = os.environ.get("VERIF_EVIDENCE_DIR") or os.path.join(ROOT, "evidence")
+    os.makedirs(evdir, exist_ok=True)
+    with open(os.path.join(evdir, ctx.prop_id + ".json"), "w") as f:
         json.dump(ev, f, indent=1, default=str)
 
 
